@@ -277,7 +277,15 @@ pub fn strategy(max_len: usize) -> impl Strategy<Value = PureCase> {
         2 => proptest::collection::vec(any::<u8>(), 0..=max_len),
         1 => proptest::collection::vec(any::<u8>(), 60..=max_len.max(61)),
     ];
-    (vecs, any::<u16>(), any::<u16>(), any::<u8>(), proptest::collection::vec(any::<u8>(), 0..=70), 0usize..14, 0usize..4)
+    // payload lengths around imbl's chunk size and its multiples as well as small ones
+    let payload = prop_oneof![
+        6 => proptest::collection::vec(any::<u8>(), 0..=70),
+        1 => proptest::collection::vec(any::<u8>(), 120..=136),
+        1 => proptest::collection::vec(any::<u8>(), 190..=194),
+        1 => proptest::collection::vec(any::<u8>(), 254..=322),
+        1 => (1usize..=6).prop_flat_map(|k| proptest::collection::vec(any::<u8>(), k * 64..=k * 64)),
+    ];
+    (vecs, any::<u16>(), any::<u16>(), any::<u8>(), payload, 0usize..14, 0usize..4)
         .prop_map(|(vec, ix, ix2, x, payload, kind, f)| {
             let len = vec.len();
             // in-range and beyond-the-end indices both reachable: 0..=len+2
